@@ -49,6 +49,35 @@ struct Symbol *_ZNK9__gnu_cxx17__normal_iteratorIPN4bloc6SymbolESt6vectorIS2_SaI
 { __CPROVER_assert(IN_RANGE(IT_PTR(this)), "std::vector iterator dereferenced inside [begin, end)"); return IT_PTR(this); }
 struct Symbol *_ZNK9__gnu_cxx17__normal_iteratorIPN4bloc6SymbolESt6vectorIS2_SaIS2_EEEdeEv(const struct vsym_iterator *this)
 { __CPROVER_assert(IN_RANGE(IT_PTR(this)), "std::vector iterator dereferenced inside [begin, end)"); return IT_PTR(this); }
+/* ... backwards with reverse iterators ([reverse.iterators]: a reverse iterator holds `current`; *r is *(current - 1); ++r is --current) */
+#ifndef G2C_HAVE_vsym_criterator
+struct vsym_criterator { struct Symbol *p; };
+#endif
+struct vsym_criterator _ZNKSt6vectorIN4bloc6SymbolESaIS1_EE7crbeginEv(const struct vec_Symbol *this) { struct vsym_criterator it; (void)this; IT_PTR(&it) = &g_backup[g_backup_len]; return it; }
+struct vsym_criterator _ZNKSt6vectorIN4bloc6SymbolESaIS1_EE5crendEv(const struct vec_Symbol *this) { struct vsym_criterator it; (void)this; IT_PTR(&it) = &g_backup[0]; return it; }
+struct vsym_criterator _ZNKSt6vectorIN4bloc6SymbolESaIS1_EE6rbeginEv(const struct vec_Symbol *this) { struct vsym_criterator it; (void)this; IT_PTR(&it) = &g_backup[g_backup_len]; return it; }
+struct vsym_criterator _ZNKSt6vectorIN4bloc6SymbolESaIS1_EE4rendEv(const struct vec_Symbol *this) { struct vsym_criterator it; (void)this; IT_PTR(&it) = &g_backup[0]; return it; }
+const struct Symbol *_ZNKSt16reverse_iteratorIN9__gnu_cxx17__normal_iteratorIPKN4bloc6SymbolESt6vectorIS3_SaIS3_EEEEEdeEv(const struct vsym_criterator *this)
+{ __CPROVER_assert(IT_PTR(this) > &g_backup[0] && IT_PTR(this) <= &g_backup[g_backup_len], "std::reverse_iterator dereferenced inside [rbegin, rend)"); return IT_PTR(this) - 1; }
+const struct Symbol *_ZNKSt16reverse_iteratorIN9__gnu_cxx17__normal_iteratorIPKN4bloc6SymbolESt6vectorIS3_SaIS3_EEEEEptEv(const struct vsym_criterator *this)
+{ __CPROVER_assert(IT_PTR(this) > &g_backup[0] && IT_PTR(this) <= &g_backup[g_backup_len], "std::reverse_iterator dereferenced inside [rbegin, rend)"); return IT_PTR(this) - 1; }
+struct vsym_criterator *_ZNSt16reverse_iteratorIN9__gnu_cxx17__normal_iteratorIPKN4bloc6SymbolESt6vectorIS3_SaIS3_EEEEEppEv(struct vsym_criterator *this)
+{ __CPROVER_assert(IT_PTR(this) > &g_backup[0] && IT_PTR(this) <= &g_backup[g_backup_len], "std::reverse_iterator incremented inside [rbegin, rend)"); IT_PTR(this) = IT_PTR(this) - 1; return this; }
+_Bool _ZStneIN9__gnu_cxx17__normal_iteratorIPKN4bloc6SymbolESt6vectorIS3_SaIS3_EEEEEbRKSt16reverse_iteratorIT_ESE_(const struct vsym_criterator *a, const struct vsym_criterator *b) { return IT_PTR(a) != IT_PTR(b); }
+_Bool _ZSteqIN9__gnu_cxx17__normal_iteratorIPKN4bloc6SymbolESt6vectorIS3_SaIS3_EEEEEbRKSt16reverse_iteratorIT_ESE_(const struct vsym_criterator *a, const struct vsym_criterator *b) { return IT_PTR(a) == IT_PTR(b); }
+/* ... and by position: size, empty, operator[], at, front, back */
+unsigned long _ZNKSt6vectorIN4bloc6SymbolESaIS1_EE4sizeEv(const struct vec_Symbol *this) { (void)this; return g_backup_len; }
+_Bool _ZNKSt6vectorIN4bloc6SymbolESaIS1_EE5emptyEv(const struct vec_Symbol *this) { (void)this; return g_backup_len == 0; }
+struct Symbol *_ZNSt6vectorIN4bloc6SymbolESaIS1_EEixEm(struct vec_Symbol *this, unsigned long n)
+{ (void)this; __CPROVER_assert(n < g_backup_len, "std::vector<Symbol>::operator[]: index within size() (undefined behaviour otherwise)"); return &g_backup[n]; }
+const struct Symbol *_ZNKSt6vectorIN4bloc6SymbolESaIS1_EEixEm(const struct vec_Symbol *this, unsigned long n)
+{ (void)this; __CPROVER_assert(n < g_backup_len, "std::vector<Symbol>::operator[]: index within size() (undefined behaviour otherwise)"); return &g_backup[n]; }
+struct Symbol *_ZNSt6vectorIN4bloc6SymbolESaIS1_EE4backEv(struct vec_Symbol *this)
+{ (void)this; __CPROVER_assert(g_backup_len > 0, "std::vector<Symbol>::back on an empty vector is undefined"); return &g_backup[g_backup_len - 1]; }
+const struct Symbol *_ZNKSt6vectorIN4bloc6SymbolESaIS1_EE4backEv(const struct vec_Symbol *this)
+{ (void)this; __CPROVER_assert(g_backup_len > 0, "std::vector<Symbol>::back on an empty vector is undefined"); return &g_backup[g_backup_len - 1]; }
+void _ZNSt6vectorIN4bloc6SymbolESaIS1_EE8pop_backEv(struct vec_Symbol *this)
+{ (void)this; __CPROVER_assert(g_backup_len > 0, "std::vector<Symbol>::pop_back on an empty vector is undefined"); g_backup_len--; }
 void _ZNSt6vectorIN4bloc6SymbolESaIS1_EE5clearEv(struct vec_Symbol *this) { (void)this; g_backup_len = 0; g_clear_n++; }
 struct Context__MemorySlot *_ZNSt6vectorIN4bloc7Context10MemorySlotESaIS2_EEixEm(struct vec_MemorySlot *this, unsigned long n)
 { (void)this; __CPROVER_assert(n < NSYM, "std::vector<MemorySlot>::operator[]: index within size() (undefined behaviour otherwise)"); return &g_slots[n]; }
